@@ -240,7 +240,7 @@ import s_rstcheck
 
 
 def _c07_run(tier, seed, out, drv):
-    s_rstcheck.c07_suite(seed, 250 if tier == 'quick' else 5000, out, drv, budget_s=90 if tier == 'quick' else 1500)
+    s_rstcheck.c07_suite(seed, 400 if tier == 'quick' else 5000, out, drv, budget_s=90 if tier == 'quick' else 1500)
 
 
 def _c07_search(tier, seed, out, drv, dis):
@@ -303,7 +303,7 @@ import s_cmake
 
 
 def _c19_run(tier, seed, out, drv):
-    s_cmake.cmake_suite(seed, 14 if tier == 'quick' else 250, out, drv, budget_s=150 if tier == 'quick' else 1500)
+    s_cmake.cmake_suite(seed, 24 if tier == 'quick' else 264, out, drv, budget_s=150 if tier == 'quick' else 1500)
 
 
 PLANS['C19'] = dict(run=_c19_run, replay=s_cmake.replay, replay_kind='cmake',
